@@ -18,7 +18,7 @@ RULES = {
             "arguments only (no terminal/ambient/receiver state outside the key) and no caller mutates its result in place",
     "R1": "operand sign at draw time: every raw cursor template applied in the animation drivers has an operand proven >= 1 (or is guarded); the new "
           "API only uses the guarded helpers cursor_up/down/forward",
-    "R2": "cursor-row balance: with the cursor row tracked as a polynomial over traced symbols (render height, padding margins, max(pad height, rendered height)): (a) every iteration of the frame loop has net row displacement 0 (every frame over the same cells); (b) after the first frame the cursor returns to the top line of the render region; (c) on normal completion the cursor ends on the last line of the (padded) region, so that draw()'s final newline leaves it on the line immediately below; the iterator's cache holds unpadded frames",
+    "R2": "cursor-row balance: with the cursor row tracked as a polynomial over traced symbols (render height, padding margins, max(pad height, rendered height)): (a) every iteration of the frame loop has net row displacement 0 (every frame over the same cells); (b) after the first frame the cursor returns to the top line of the render region; (c) on normal completion the cursor ends on the last line of the (padded) region, so that draw()'s final newline leaves it on the line immediately below; the iterator's cache holds unpadded frames; the writes of the frame loop of _animate_ are unconditional (no frame is skipped)",
     "R3": "validate before writing: the size errors are raised before the first output effect; the width is checked unconditionally, the height unless "
           "scrolling is allowed (and always for animations); decided on a finite domain: the traced raise condition of _init_render_ equals `check_size and (w > tw or (not allow_scroll and h > th))` over sizes {1,2,3}^4 and all flags, tuples ordered lexicographically",
     "R4": "final state: Renderable.draw's clean-up writes exactly one newline, then SHOW_CURSOR under the hide condition, then flushes; the old API's "
@@ -608,5 +608,6 @@ MUTANTS = [
     M("z-index-drift", KT, "KittyImage._display_animated", 'kwargs["z_index"] = -(1 << 31)', 'kwargs["z_index"] = -(1 << 31) + 1', {"R5"}),
     M("z-index-only-default", KT, "KittyImage._display_animated", 'kwargs["z_index"] = -(1 << 31)', 'kwargs.setdefault("z_index", -(1 << 31))', {"R5"}),
     M("lexicographic-size-check", RN, "Renderable._init_render_#4", "if not allow_scroll and height > terminal_height:", "if not allow_scroll and (width, height) > (terminal_width, terminal_height):", {"R3"}),
+    M("skip-identical-frame", RN, "Renderable._animate_", "                try:\n                    write(frame.render_output.replace(\"\\n\", cursor_to_next_render_line))\n                    flush()\n", "                try:\n                    if frame.render_output != last_output:\n                        write(frame.render_output.replace(\"\\n\", cursor_to_next_render_line))\n                    flush()\n", {"R2"}),
     M("twin-regroup", RN, "Renderable._animate_", "cursor_up(height + pad_bottom - 1)", "cursor_up(pad_bottom + height - 1)", twin=True),
 ]
